@@ -325,7 +325,7 @@ def nodesOfRows (rows : List (List Nat × String × Bool)) : Except Err (List PN
   let mut code : List Nat := []
   let mut codeOpen := false
   for (lines, text, isDir) in rows do
-    if isDir then
+    if isDir && isDirectiveLine .cppDirective text.toList then   -- `FileParser.is_directive`
       if codeOpen then
         nodes := nodes ++ [{ kind := .code, lines := code }]
         code := []; codeOpen := false
